@@ -4,3 +4,4 @@ use crate::ev::Run;
 pub fn c09_timed(_run: &mut Run) {}
 pub fn c07_schedules(_run: &mut Run) {}
 pub fn c18_blackbox(_run: &mut Run) {}
+pub fn c10_blackbox(_run: &mut Run, _lost: &[crate::oracle::Pos]) {}
